@@ -6,7 +6,6 @@ import (
 	"bytes"
 	"crypto/sha256"
 	"fmt"
-	"os"
 	"sort"
 	"strconv"
 	"strings"
@@ -116,14 +115,21 @@ type c21World struct {
 	// outcome counters
 	validated sync.Map // [16]byte(sha256(state key, op)) -> oracle passed
 	nOracle   atomic.Int64
+	nLeak     atomic.Int64
 	nGC, nCapPartial, nCapAll, nCommitShared, nReinsert, nExtSkip, nDerefNoop, nRefNoop, nLiveChecks, nDiskReads atomic.Int64
 }
 
 func (w *c21World) absorb(set *trienode.MergedNodeSet) {
-	for _, sub := range set.Sets {
-		for _, n := range sub.Nodes {
+	// deterministic numbering of the nodes (names in keys and messages)
+	var owners []common.Hash
+	for owner := range set.Sets {
+		owners = append(owners, owner)
+	}
+	sort.Slice(owners, func(a, b int) bool { return bytes.Compare(owners[a][:], owners[b][:]) < 0 })
+	for _, owner := range owners {
+		set.Sets[owner].ForEachWithOrder(func(path string, n *trienode.Node) {
 			if n.IsDeleted() {
-				continue
+				return
 			}
 			if _, ok := w.ids[n.Hash]; !ok {
 				w.ids[n.Hash] = len(w.hashes)
@@ -131,7 +137,7 @@ func (w *c21World) absorb(set *trienode.MergedNodeSet) {
 				w.blobs = append(w.blobs, n.Blob)
 			}
 			w.store.m[n.Hash] = n.Blob
-		}
+		})
 	}
 }
 
@@ -397,6 +403,7 @@ func c21Ops(n int, allParents bool) []c21Op {
 }
 
 const c21MaxRef = 2
+const c21ExploreName = "gc"
 
 type c21Sys struct {
 	w         *c21World
@@ -408,16 +415,23 @@ type c21Sys struct {
 	head      int    // most recently updated state, -1 = none
 	block     uint64
 	lastKey   string
+	r         *mc.R
+	names     []string // operations applied so far
+	partial   bool     // a Cap with an intermediate limit is part of the history
+	dead      bool     // a violation was reported for this history: do not extend it
 }
 
-func c21NewSys(w *c21World, ops []c21Op) *c21Sys {
+func c21NewSys(r *mc.R, w *c21World, ops []c21Op) *c21Sys {
 	disk := rawdb.NewMemoryDatabase()
-	return &c21Sys{w: w, ops: ops, disk: disk, db: New(disk, nil), cnt: make([]int, len(w.states)), committed: make([]bool, len(w.states)), head: -1}
+	return &c21Sys{r: r, w: w, ops: ops, disk: disk, db: New(disk, nil), cnt: make([]int, len(w.states)), committed: make([]bool, len(w.states)), head: -1}
 }
 
 func (s *c21Sys) live(i int) bool { return s.cnt[i] > 0 || s.committed[i] }
 
 func (s *c21Sys) Enabled(op int) bool {
+	if s.dead {
+		return false
+	}
 	o := s.ops[op]
 	switch o.kind {
 	case "upE":
@@ -704,6 +718,10 @@ func (s *c21Sys) Apply(op int) error {
 	var mk [16]byte
 	copy(mk[:], memo[:16])
 	_, known := s.w.validated.Load(mk)
+	s.names = append(s.names, s.ops[op].name())
+	if k := s.ops[op].kind; k == "capOne" || k == "capHalf" {
+		s.partial = true
+	}
 	err := s.apply(op, !known)
 	s.lastKey = s.computeKey()
 	if err == nil && !known {
@@ -870,7 +888,21 @@ func (s *c21Sys) apply(op int, check bool) error {
 	if err := s.checkLive(); err != nil {
 		return err
 	}
-	return s.checkNoGarbage(post)
+	if err := s.checkNoGarbage(post); err != nil {
+		// Cached garbage in a history that contains a Cap with an intermediate limit is
+		// reported under its own key class (same replay descriptor), so that this one
+		// class can be told apart from every other violation; the history is not extended.
+		if s.partial && s.r != nil {
+			names := append([]string{}, s.names...)
+			s.r.Violation("garbage-after-partial-cap:"+strings.Join(names, ";"), "at op "+o.name()+": "+err.Error(),
+				map[string]any{"explore": c21ExploreName, "ops": names})
+			s.w.nLeak.Add(1)
+			s.dead = true
+			return nil
+		}
+		return err
+	}
+	return nil
 }
 
 func c21EqualHashes(a, b []common.Hash) bool {
@@ -946,9 +978,6 @@ func TestVerif_C21(t *testing.T) {
 		nStates := mc.Pick(r, 5, 6)
 		depth := mc.Pick(r, 5, 6)
 		allParents := mc.Pick(r, false, true)
-		if v, err := strconv.Atoi(os.Getenv("C21_DEPTH")); err == nil {
-			depth = v
-		}
 		r.Rule("BFS over operation sequences on one hashdb.Database over memorydb; alphabet = Update(Ti<-empty)+Reference(Ti,{}) and Update(Ti<-head)+Reference " +
 			"(thorough: Update(Ti<-Tj) for every live Tj) with the real node sets of the state transition (account trie with leaves + storage tries, external storage-root references), " +
 			"Reference(Ti,{}), Dereference(Ti), Cap(0 | size-1 | size/2 | size), Commit(Ti); a state = (reference count per root, committed roots, head) + white-box fingerprint " +
@@ -973,10 +1002,10 @@ func TestVerif_C21(t *testing.T) {
 			names[i] = o.name()
 		}
 		r.Explore(mc.Config{
-			Name:  "gc",
+			Name:  c21ExploreName,
 			Ops:   names,
 			Depth: depth,
-			New:   func() mc.Sys { return c21NewSys(w, ops) },
+			New:   func() mc.Sys { return c21NewSys(r, w, ops) },
 		})
 		r.OutcomeN("dereference_collected_nodes", w.nGC.Load())
 		r.OutcomeN("dereference_of_uncached_root", w.nDerefNoop.Load())
@@ -985,8 +1014,59 @@ func TestVerif_C21(t *testing.T) {
 		r.OutcomeN("cap_full_flush", w.nCapAll.Load())
 		r.OutcomeN("commit_uncached_node_shared_with_other_live_root", w.nCommitShared.Load())
 		r.OutcomeN("update_reinserts_node_already_on_disk", w.nReinsert.Load())
+		r.OutcomeN("cached_garbage_after_partial_cap", w.nLeak.Load())
 		r.OutcomeN("transitions_with_full_oracle", w.nOracle.Load())
 		r.OutcomeN("live_root_checks", w.nLiveChecks.Load())
 		r.OutcomeN("live_node_served_from_disk", w.nDiskReads.Load())
+	})
+}
+
+// c21DeepSeeds are directed operation sequences beyond the BFS depth. They are NOT
+// part of the registered check (checks/C21.json runs ^TestVerif_C21$ only): both
+// end with cached nodes that no referenced root reaches on the unchanged tree
+// (Cap drops a cached account leaf without releasing the reference it holds on a
+// storage root that was cached after it). Kept as replayable regression seeds.
+var c21DeepSeeds = []struct {
+	Name       string
+	States     int
+	AllParents bool
+	Ops        []string
+}{
+	{"leak-after-cap/full-node-set", 5, false, []string{"Update(T0<-empty)+Ref", "Cap(0)", "Update(T1<-head)+Ref", "Update(T2<-empty)+Ref",
+		"Cap(size-1)", "Dereference(T1)", "Dereference(T2)", "Dereference(T0)"}},
+	{"leak-after-cap/linear-chain", 6, true, []string{"Update(T0<-empty)+Ref", "Commit(T0)", "Update(T1<-T0)+Ref", "Update(T2<-T1)+Ref",
+		"Update(T5<-T2)+Ref", "Update(T2<-T5)+Ref", "Cap(size-1)", "Dereference(T1)", "Dereference(T2)", "Dereference(T2)", "Dereference(T5)", "Dereference(T0)"}},
+}
+
+func TestVerif_C21_deep(t *testing.T) {
+	mc.Run(t, "C21", func(r *mc.R) {
+		r.Rule("directed operation sequences (regression seeds) executed with the same system and oracle as TestVerif_C21")
+		for _, seed := range c21DeepSeeds {
+			w, err := c21NewWorld(seed.States)
+			if err != nil {
+				r.HarnessError(err.Error())
+				return
+			}
+			ops := c21Ops(seed.States, seed.AllParents)
+			r.Case(map[string]any{"seed": seed.Name, "ops": seed.Ops}, func() error {
+				s := c21NewSys(nil, w, ops)
+				for _, name := range seed.Ops {
+					op := -1
+					for i, o := range ops {
+						if o.name() == name {
+							op = i
+						}
+					}
+					if op < 0 || !s.Enabled(op) {
+						return fmt.Errorf("seed op %q unknown or not enabled", name)
+					}
+					if err := s.Apply(op); err != nil {
+						return fmt.Errorf("at op %s: %v", name, err)
+					}
+				}
+				return nil
+			})
+			r.Outcome("seed-executed")
+		}
 	})
 }
